@@ -479,6 +479,16 @@ pub fn run(a: &Args) -> Report {
     if let Some(path) = &a.replay {
         let v: Value = serde_json::from_str(&std::fs::read_to_string(path).unwrap_or_default()).unwrap_or_default();
         let c = &v["case"];
+        if c["class"] == "unread-stream" {
+            let seed = c["seed"].as_str().and_then(|s| s.parse().ok()).unwrap_or(1);
+            super::guarded(&mut r, c.clone(), |r| unread_stream(r, seed));
+            return r;
+        }
+        if c["class"] == "rekey-window" {
+            let seed = c["seed"].as_str().and_then(|s| s.parse().ok()).unwrap_or(1);
+            super::guarded(&mut r, c.clone(), |r| rekey_window(r, seed));
+            return r;
+        }
         let calls: Vec<(Call, bool, u64)> = c["calls"]
             .as_array()
             .map(|l| l.iter().filter_map(|e| { let name = e[0].as_str()?; Some((*CALLS.iter().find(|k| format!("{k:?}") == name)?, e[1].as_bool()?, e[2].as_u64()?)) }).collect())
@@ -554,6 +564,19 @@ pub fn run(a: &Args) -> Report {
         }
         r.count("directed_pairs");
     }
+    for _ in 0..(if a.quick() { 320 } else { 6400 }) / a.nshards.max(1) {
+        let seed = rng.u64();
+        super::guarded(&mut r, json!({"class":"rekey-window","seed":seed.to_string()}), |r| rekey_window(r, seed));
+        r.count("rekey_window_worlds");
+    }
+    for _ in 0..(if a.quick() { 160 } else { 3200 }) / a.nshards.max(1) {
+        let seed = rng.u64();
+        // each stalled world costs ~10 s of real time: once the stall has been witnessed, the remaining worlds add nothing
+        if r.seen_sigs.get("blocked/node-thread-stalled-on-unread-stream").copied().unwrap_or(0) >= 2 {
+            break;
+        }
+        super::guarded(&mut r, json!({"class":"unread-stream","seed":seed.to_string()}), |r| unread_stream(r, seed));
+    }
     // fault enumeration over random scripts
     let scripts = (if a.quick() { 32 } else { 480 }) / a.nshards.max(1);
     for _ in 0..scripts.max(1) {
@@ -588,6 +611,238 @@ pub fn run(a: &Args) -> Report {
         }
     }
     r
+}
+
+/// A lookup of the node's own id in flight while the node takes a new id: an adaptive node on a public,
+/// reachable address learns that address from its first lookup, pings itself, and re-keys (BEP42) when the
+/// ping comes back - a few tens of milliseconds after the first lookup ended. A `find_node(own id)` or
+/// `bootstrapped()` started right then (one peer has just crashed, so the lookup lasts at least a request
+/// timeout) is still running around the OLD id when the re-key happens. It must return all the same.
+pub fn rekey_window(r: &mut Report, seed: u64) {
+    r.eval();
+    let mut rng = Rng::new(seed);
+    let w = World::with_cfg(seed, NetCfg { lat_min: 5 * MS, lat_max: 120 * MS, random_ties: true }, TraceLevel::Off);
+    let servers = 3 + rng.usize(5);
+    let mut net = build_net(&w, servers, 0, IpPlan::PublicSecure, false, &mut rng);
+    let which = rng.usize(3);
+    let call_name = ["find_node(own id)", "bootstrapped()", "both"][which];
+    let case = json!({"class":"rekey-window","seed":seed.to_string(),"servers":servers,"call":call_name});
+    let x = match w.spawn(NodeSpec::client(Ipv4Addr::new(80, 0, 0, 1), &[net.boot])) {
+        Ok(x) => x,
+        Err(_) => return,
+    };
+    let id0 = match w.block_on(x.adht.info(), 5 * SEC) {
+        Some(i) => *i.id(),
+        None => return,
+    };
+    w.block_on(x.adht.bootstrapped(), 60 * SEC);
+    // one server (not the bootstrap node) crashes now: the next lookup waits for it
+    let vi = 1 + rng.usize(servers - 1);
+    let nd = net.nodes.remove(vi);
+    let sck = nd.sock;
+    w.crash_sock(sck);
+    drop(nd);
+    w.reap(sck);
+    let a = x.adht.clone();
+    let now = w.now();
+    let mut tasks: Vec<(&str, Task<()>)> = vec![];
+    if which != 1 {
+        let a1 = a.clone();
+        tasks.push(("find_node", Task::new(now, async move { drop(a1.find_node(id0).await) })));
+    }
+    if which != 0 {
+        let a2 = a.clone();
+        tasks.push(("bootstrapped", Task::new(now, async move { drop(a2.bootstrapped().await) })));
+    }
+    let end = now + 60 * SEC;
+    loop {
+        let t = w.now();
+        let mut all = true;
+        for (_, tk) in tasks.iter_mut() {
+            if !tk.poll(t) {
+                all = false;
+            }
+        }
+        if all || t >= end {
+            break;
+        }
+        if !matches!(w.step_until(end), Step::Node(_) | Step::Raw(_)) {
+            w.run_to(end);
+        }
+    }
+    let id1 = w.block_on(x.adht.info(), 5 * SEC).map(|i| *i.id());
+    let rekeyed = id1.map(|i| i != id0).unwrap_or(false);
+    let took: Vec<u64> = tasks.iter().map(|(_, t)| t.finished.unwrap_or(end).saturating_sub(now) / MS).collect();
+    if rekeyed {
+        r.count("rekey_window/node_took_a_new_id_around_the_call");
+        r.nontrivial(mix(seed, w.order_hash()));
+    }
+    for (name, tk) in &tasks {
+        if tk.done() {
+            r.count(&format!("rekey_window/{name}/returned"));
+        } else {
+            r.violation(&format!("hang/{name}/own-id-lookup-during-rekey"), "a lookup of the node's own id that was in flight when the node took a new (BEP42) id did not return within 60 s", case.clone(), json!({"rekeyed": rekeyed, "took_ms": took}));
+        }
+    }
+    if w.stuck() {
+        r.inconclusive("scheduler watchdog fired");
+    }
+    drop(x);
+    drop(net);
+    w.shutdown();
+    for (thread, loc, msg) in crate::take_panics() {
+        r.violation(&format!("panic/{loc}"), &format!("thread {thread} panicked: {msg}"), case.clone(), json!({}));
+    }
+}
+
+/// A caller that does not read: a get_peers / get_mutable stream is opened and left unpolled while 25..45
+/// responders each deliver a value for it; meanwhile another call (find_node of another target) runs on the
+/// same node, and afterwards the stream is read. The other call must return (an unread stream is no reason
+/// for any other call to hang), and the stream must then yield every response and end.
+/// If the node's thread stops returning to its socket read for seconds of real time, the scheduler reads
+/// one item from the stream; the thread resuming right then, repeatedly, shows that it was blocked handing
+/// responses to the caller that is not reading.
+pub fn unread_stream(r: &mut Report, seed: u64) {
+    use crate::krpc::{addr_bytes, nodes_bytes, response, VERSION_RS6};
+    use futures_lite::StreamExt;
+    use std::pin::Pin;
+    r.eval();
+    let mut rng = Rng::new(seed);
+    let w = World::with_cfg(seed, NetCfg { lat_min: MS, lat_max: 40 * MS, random_ties: true }, TraceLevel::Off);
+    let n = 25 + rng.usize(21);
+    let mutable = rng.bool();
+    let case = json!({"class":"unread-stream","seed":seed.to_string(),"responders":n,"stream": if mutable { "get_mutable" } else { "get_peers" }});
+    let ends: Vec<([u8; 20], SocketAddrV4)> = (0..n).map(|i| (rng.array(), SocketAddrV4::new(Ipv4Addr::new(54, 0, (i / 200) as u8, 1 + (i % 200) as u8), 6881))).collect();
+    let socks: Vec<SockId> = ends.iter().map(|e| w.raw(e.1)).collect();
+    let signer = dht::SigningKey::from_bytes(&rng.array::<32>());
+    let item = dht::MutableItem::new(&signer, b"value", 3, None);
+    let key = *item.key();
+    let target: [u8; 20] = if mutable { crate::sha1::mutable_target(&key, None) } else { rng.array() };
+    let answered: Rc<RefCell<HashSet<usize>>> = Rc::new(RefCell::new(HashSet::new()));
+    {
+        let (ends2, socks2, item2, answered2) = (ends.clone(), socks.clone(), item.clone(), answered.clone());
+        w.set_responder(Some(Box::new(move |w, sock, d| {
+            let Some(i) = socks2.iter().position(|s| *s == sock) else { return false };
+            let Some(q) = Krpc::parse(&d.bytes) else { return true };
+            if q.y != b'q' {
+                return true;
+            }
+            if q.target() == Some(target) && (q.is_query("get_peers") || q.is_query("get")) {
+                answered2.borrow_mut().insert(i);
+            }
+            // referrals: everybody, in slices of 20 around the responder
+            let list: Vec<([u8; 20], SocketAddrV4)> = (0..20).map(|k| ends2[(i + 1 + k) % ends2.len()]).collect();
+            let mut rd = vec![("id", B::bytes(&ends2[i].0)), ("nodes", B::Bytes(nodes_bytes(&list)))];
+            if q.target() == Some(target) && (q.is_query("get_peers") || q.is_query("get")) {
+                rd.push(("token", B::bytes(b"tokn")));
+                if q.is_query("get_peers") {
+                    rd.push(("values", B::List(vec![B::Bytes(addr_bytes(&SocketAddrV4::new(Ipv4Addr::new(77, 0, 0, 1 + i as u8), 7000)))])));
+                } else {
+                    rd.push(("v", B::bytes(item2.value())));
+                    rd.push(("k", B::bytes(item2.key())));
+                    rd.push(("sig", B::bytes(item2.signature())));
+                    rd.push(("seq", B::Int(item2.seq() as i128)));
+                }
+            }
+            let bytes = response(&q.t, B::dict(rd), Some(&d.from), Some(&VERSION_RS6)).encode();
+            w.raw_send(sock, &bytes, d.from);
+            true
+        })));
+    }
+    let boots: Vec<SocketAddrV4> = ends.iter().take(3).map(|e| e.1).collect();
+    let x = match w.spawn(NodeSpec::client(Ipv4Addr::new(54, 9, 9, 9), &boots)) {
+        Ok(x) => x,
+        Err(_) => return,
+    };
+    w.block_on(x.adht.bootstrapped(), 60 * SEC);
+    let a = x.adht.clone();
+    // the stream: created (so the request reaches the actor) but not polled
+    type Items = Pin<Box<dyn futures_lite::Stream<Item = usize>>>;
+    let stream: Rc<RefCell<Items>> = Rc::new(RefCell::new(if mutable {
+        Box::pin(a.get_mutable(&key, None, None).map(|_| 1usize)) as Items
+    } else {
+        Box::pin(a.get_peers(Id::from(target)).map(|v| v.len())) as Items
+    }));
+    let drained_while_blocked = Rc::new(RefCell::new((0u32, 0usize)));
+    {
+        let (st, dr) = (stream.clone(), drained_while_blocked.clone());
+        w.set_blocked_hook(Some(Box::new(move |_waited| {
+            if let Ok(mut s) = st.try_borrow_mut() {
+                let mut d = dr.borrow_mut();
+                d.0 += 1;
+                // the first two times read a single item (the thread must resume, and stall again on the next
+                // response); from the third time on read whatever is there
+                let take = if d.0 <= 2 { 1 } else { 64 };
+                for _ in 0..take {
+                    match crate::simnet::poll_once(std::pin::pin!(s.next())) {
+                        std::task::Poll::Ready(Some(k)) => d.1 += k.max(1),
+                        _ => break,
+                    }
+                }
+            }
+        })));
+    }
+    // the other call on the same node
+    let other: [u8; 20] = rng.array();
+    let a2 = x.adht.clone();
+    let now = w.now();
+    let mut t_other: Task<usize> = Task::new(now, async move { a2.find_node(Id::from(other)).await.len() });
+    let end = now + 90 * SEC;
+    while !t_other.poll(w.now()) && w.now() < end {
+        if !matches!(w.step_until(end), Step::Node(_) | Step::Raw(_)) {
+            w.run_to(end);
+        }
+    }
+    // let the lookup behind the stream finish, still unread
+    w.run_for(5 * SEC);
+    w.set_blocked_hook(None);
+    let (stalls, drained) = *drained_while_blocked.borrow();
+    // now read the stream to its end
+    let mut got = drained;
+    let mut ended = false;
+    let end2 = w.now() + 60 * SEC;
+    loop {
+        let polled = { let mut sb = stream.borrow_mut(); crate::simnet::poll_once(std::pin::pin!(sb.next())) };
+        match polled {
+            std::task::Poll::Ready(Some(k)) => got += k.max(1),
+            std::task::Poll::Ready(None) => {
+                ended = true;
+                break;
+            }
+            std::task::Poll::Pending => {
+                if w.now() >= end2 || !matches!(w.step_until(end2), Step::Node(_) | Step::Raw(_)) {
+                    break;
+                }
+            }
+        }
+    }
+    r.count("unread_stream_worlds");
+    r.add("unread_stream/items_read_afterwards", got as u64);
+    if got > 20 {
+        r.count("unread_stream/worlds_with_more_than_20_unread_items");
+        r.nontrivial(mix(seed, w.order_hash()));
+    }
+    let detail = json!({"stalls_resolved_by_reading": stalls, "items": got, "stream_ended": ended, "other_call_returned": t_other.done()});
+    if stalls >= 3 {
+        r.violation("blocked/node-thread-stalled-on-unread-stream", "the node's thread stopped for seconds (real time) at a time and resumed each time the harness read one item from a stream its owner was not polling: responses are handed to callers with a blocking send", case.clone(), detail.clone());
+    }
+    if !t_other.done() {
+        r.violation("hang/FindNode/with-unread-stream", "find_node did not return while another caller's stream on the same node was left unread", case.clone(), detail.clone());
+    }
+    if !ended {
+        r.violation("hang/stream-did-not-end/after-being-left-unread", "a get stream that was left unread during its lookup did not end when read afterwards", case.clone(), detail.clone());
+    } else if got < answered.borrow().len() {
+        r.violation("lost/stream-items/after-being-left-unread", "a get stream that was left unread during its lookup yielded fewer items than responders answered its lookup with a value", case.clone(), json!({"responders_that_answered": answered.borrow().len(), "detail": detail}));
+    }
+    if w.stuck() && stalls < 3 {
+        r.inconclusive("scheduler watchdog fired");
+    }
+    drop(stream);
+    drop(x);
+    w.shutdown();
+    for (thread, loc, msg) in crate::take_panics() {
+        r.violation(&format!("panic/{loc}"), &format!("thread {thread} panicked: {msg}"), case.clone(), json!({}));
+    }
 }
 
 fn parse_fault(s: &str) -> Fault {
